@@ -37,6 +37,7 @@ def run(ck, F, tier):
     ck.rule("F3", "phase order inside decode")
     ck.rule("F4", "field effects of the two flooding passes")
     ck.rule("F5", "layered order, in-place update and initialisation")
+    ck.rule("F7", "immediate variable update of the layered schedule, for every built-in arithmetic: vars[d] <- vars[d] - old message + new message in the pass that stores the new message (the rule C05-V5, run here because the layered schedule delegates this step to the arithmetic)")
     ck.rule("F6", "zero-iteration shortcut of both schedules: the raw channel LLRs are tested with 'non-positive means 1' before any message is computed")
 
     from ..decmodel import phase_roles, decode_contracts
@@ -355,3 +356,11 @@ def run(ck, F, tier):
         ok = ok1 and zip_ok and ok2
     ck.inst("F5", "layered:initialize", ok, b.span,
             "llrs[i] = llr_to_var_llr(input_llr_quantize(y[i])) by position (zip of the two whole slices) and every check message value reset to Default")
+    # F7: the layered schedule's immediate variable update lives in the arithmetic (update_check_messages_and_vars)
+    from ..report import RuleAlias
+    from .c05 import layered_update_rule
+    from .c05 import TRAIT as _TRAIT
+    impls_ = F.impls_of(_TRAIT)
+    ck.floor("F7", "impl DecoderArithmetic", len(impls_), 24)
+    for im_ in impls_:
+        layered_update_rule(RuleAlias(ck, "F7"), F, im_["self_ty"].rsplit("::", 1)[-1], rule="V5")
